@@ -150,6 +150,40 @@ class FnAnalysis:
             if res is not None and not (res == UNK and name in ALLOC_CALLS | ALIAS_CALLS):
                 return res
         if name is None:
+            # the callee is itself the result of a call (`self._collector()(ctx)`): when that inner call resolves to repository functions
+            # which return nothing but bound methods of self, the result is what those methods return
+            if isinstance(f, ast.Call) and self.cg is not None:
+                inner = self.cg.resolve_call(self.fi, f)
+                meths = []
+                ok = bool(inner)
+                for g in inner:
+                    rets = [r for r in walk_local(g.node) if isinstance(r, ast.Return)]
+                    vals = []
+                    for r in rets:
+                        v = r.value
+                        stack = [v]
+                        while stack:
+                            x = stack.pop()
+                            if isinstance(x, ast.IfExp):
+                                stack += [x.body, x.orelse]
+                            else:
+                                vals.append(x)
+                    if not vals or not all(isinstance(x, ast.Attribute) and isinstance(x.value, ast.Name) and x.value.id == "self" for x in vals):
+                        ok = False
+                        break
+                    for x in vals:
+                        m_ = g.module.funcs.get(f"{g.cls}.{x.attr}") if g.cls else None
+                        if m_ is None:
+                            ok = False
+                        else:
+                            meths.append(m_)
+                if ok and meths:
+                    res = None
+                    for m_ in meths:
+                        r = self.summ.ret.get(m_.fq, UNK)
+                        r = FRESH if isinstance(r, tuple) else r
+                        res = r if res is None else meet(res, r)
+                    return res
             return UNK
         if name == "copy" or name == "deepcopy":
             return FRESH
